@@ -734,11 +734,19 @@ def chain_engine(prop, tier, replay, t0):
     states = trans = 0
     cases = os.path.join(d, 'chains.ndjson')
     nchains = 0
+    if replay and '"dest"' in open(replay).readline():
+        # a row of the coercion table (WithCoercer scope)
+        line = json.loads(open(replay).readline())
+        verdicts, st3, g3, res3, trace3, nrows3 = table_run('Tab_C03', 'coercetab')
+        bad = [v for v in verdicts if v['prop'] == 'C17' and v['detail'].get('dest') == line.get('dest') and v['detail'].get('src') == line.get('src')]
+        for v in bad[:3]:
+            print('VIOLATION property=C17 replay=%s' % replay)
+        return 1 if bad else 0
     if replay:
         st = vlib.harness(['exec', '-plan', 'file:0', '-cases', replay, '-out', trace])
     else:
         with open(cases, 'w') as out:
-            for ty in ('str', 'str2', 'int'):
+            for ty in ('str', 'str2', 'bool', 'int'):
                 # (A) every chain the type system admits: the code-shaped builder machine equals the declarative reading
                 mc = vlib.run_tlc('ZogChain', vlib.cfg_text(chain_consts(ty, 3, level), init='ChainInit', next_='ChainNext', invariants=['BuilderMeansWhatItSays']), workers=16, timeout=3600)
                 vlib.tlc_ok(mc, 'ZogChain/' + ty)
@@ -774,13 +782,27 @@ def chain_engine(prop, tier, replay, t0):
             print('VIOLATION property=%s replay=%s' % (prop, path))
             log('  verdict: %s line %s: %s' % (v['kind'], v['line'], json.dumps(v['detail'])[:600]))
         rc = 1
+    coercer_rows = 0
     if not replay:
-        cov = dict(states=states, transitions=trans, traces_validated_against_impl=st['traces'], trace_lines=st['lines'], chains_emitted=nchains,
+        # WithCoercer replaces coercion for its own schema only: the coercer rows of the coercion table
+        tv3, st3, g3, res3, trace3, nrows3 = table_run('Tab_C03', 'coercetab')
+        lines3 = open(trace3).read().splitlines()
+        coercer_rows = sum(1 for l in lines3 if 'coercer' in l)
+        os.makedirs(vlib.REPLAY, exist_ok=True)
+        for v in [x for x in tv3 if x['prop'] == 'C17'][:5]:
+            path = '%s/C17-Tab_C03-%s.ndjson' % (vlib.REPLAY, v['id'])
+            open(path, 'w').write(lines3[v['line'] - 1] + '\n')
+            print('VIOLATION property=C17 replay=%s' % path)
+            log('  verdict: %s %s: %s' % (v['prop'], v['kind'], json.dumps(v['detail'])[:600]))
+            viol.append(v)
+            rc = 1
+    if not replay:
+        cov = dict(states=states, transitions=trans, traces_validated_against_impl=st['traces'] + coercer_rows, trace_lines=st['lines'], chains_emitted=nchains, coercer_scope_rows=coercer_rows,
                    evaluations=st['cases'], distinct_nontrivial=st['distinct_nontrivial'],
                    rule='every chain of <= 3 builder calls the Go type system admits (Not, built-in tests with every option combination of the tier, TestFunc, Required(msg)/Optional, Default, Catch) for a string and an int schema, '
                         'executed on the real builder API and probed with absent and present inputs in Parse and Validate; plus random schemas in which one schema OBJECT is placed at several positions; '
                         'distinct by (chain/schema, input, mode)',
-                   samples=st['samples'], per_family=st['per_family'], mc_config='ZogChain MaxLen=3 OptLevel=%s ChainTy in {str,int} invariant BuilderMeansWhatItSays' % level,
+                   samples=st['samples'], per_family=st['per_family'], mc_config='ZogChain MaxLen=3 OptLevel=%s ChainTy in {str,str2,bool,int} invariant BuilderMeansWhatItSays; Tab_C03 coercer rows' % level,
                    tlc_trace_states=tv['distinct'], verdicts_owned_by_other_properties=others, exhaustive=thorough)
         vlib.write_evidence(prop, tier, 'model_checking', cov,
                             ['the declarative reading NodeOf(chain) is the specification of C17; everything after construction is validated like any other case (Trace_Exec)',
